@@ -47,6 +47,8 @@ func Content(tape *sim.Tape, ext string, allowBad bool) ([]byte, string) {
 		good = goodContent["txt"]
 	}
 	switch {
+	case k == 4:
+		return sized(tape, ext), "sized"
 	case k == 5 && allowBad && len(badContent[ext]) > 0:
 		b := badContent[ext]
 		return []byte(b[tape.Draw(len(b))]), "bad"
@@ -355,4 +357,42 @@ func GenCase(tape *sim.Tape, crashBias bool) *Case {
 		iv.JSONPrecision = []int{0, 1}[tape.Draw(2)]
 	}
 	return &Case{Tree: t, Inv: iv, Shape: shape}
+}
+
+// sized builds a document of an exactly chosen size that ends in a comment without a
+// trailing newline. Sizes are biased to just below powers of the buffer growth of
+// io.ReadAll and io.Copy (a read or a separator then straddles two buffers); the
+// unterminated line comment makes what follows the file in a bundle matter.
+func sized(tape *sim.Tape, ext string) []byte {
+	bounds := []int{512, 896, 1408, 2048, 3072, 4096, 5376, 6912, 8192, 32768, 65536}
+	var size int
+	if tape.Draw(2) == 0 {
+		size = bounds[tape.Draw(len(bounds))] - tape.Draw(4)
+	} else {
+		size = 16 + tape.Draw(6000)
+	}
+	var head, tailS string
+	switch ext {
+	case "js", "mjs":
+		head, tailS = "var q = 1 //", ""
+	case "css", "scss":
+		head, tailS = "a { b : c } /*", "*/"
+	case "html", "htm":
+		head, tailS = "<p> a </p><!--", "-->"
+	case "svg", "xml":
+		head, tailS = "<svg> <g/> <!--", "--></svg>"
+	case "json":
+		head, tailS = "[ 1 ,", " 2 ]"
+	default:
+		head, tailS = "text ", ""
+	}
+	pad := size - len(head) - len(tailS)
+	if pad < 0 {
+		pad = 0
+	}
+	fill := "x"
+	if ext == "json" {
+		fill = " "
+	}
+	return []byte(head + strings.Repeat(fill, pad) + tailS)
 }
